@@ -1,11 +1,598 @@
 package main
 
-// Replay of solver counterexamples against the real code (in-package test via go test -overlay).
+import (
+	"bytes"
+	"encoding/json"
+	"fmt"
+	"go/types"
+	"os"
+	"os/exec"
+	"path/filepath"
+	"strings"
+	"time"
+
+	"golang.org/x/tools/go/ssa"
+)
+
+// Replay of solver counterexamples against the real code: the model of a refuted obligation is
+// turned into Go literals, and the real function is called on them from an in-package test that
+// is injected with `go test -overlay` (nothing is written into /repo).
+
+type ReplayArtefact struct {
+	Property   string   `json:"property,omitempty"`
+	Obligation string   `json:"obligation"`
+	Function   string   `json:"function"`
+	PkgDir     string   `json:"pkg_dir"`
+	TestSource string   `json:"test_source"`
+	Inputs     []string `json:"inputs"`
+	Expect     string   `json:"expect"`
+	Observed   string   `json:"observed"`
+	Confirmed  bool     `json:"confirmed"`
+	Note       string   `json:"note,omitempty"`
+}
+
+var panicKinds = map[string]bool{"index": true, "slice": true, "deref": true, "div": true, "panic": true, "make": true, "conv": true, "assert": true, "mapwrite": true, "close": true, "shift": true}
+
+// modelQuery runs the VC again with extra assertions and returns the values of the given terms.
+func modelQuery(script string, extra []string, terms []string) (map[string]string, bool) {
+	// strip the trailing (check-sat)(get-model)
+	i := strings.LastIndex(script, "(check-sat)")
+	if i < 0 {
+		return nil, false
+	}
+	var sb strings.Builder
+	sb.WriteString(script[:i])
+	for _, x := range extra {
+		sb.WriteString("(assert " + x + ")\n")
+	}
+	sb.WriteString("(check-sat)\n")
+	if len(terms) > 0 {
+		sb.WriteString("(get-value (" + strings.Join(terms, " ") + "))\n")
+	}
+	dir, _ := os.MkdirTemp("", "govc-replay")
+	defer os.RemoveAll(dir)
+	file := filepath.Join(dir, "q.smt2")
+	os.WriteFile(file, []byte(sb.String()), 0o644)
+	for _, solver := range [][]string{{"z3-new", "-T:20"}, {"cvc5", "--tlimit=20000", "--produce-models"}, {"z3", "-T:20"}} {
+		cmd := exec.Command(solver[0], append(solver[1:], file)...)
+		var buf bytes.Buffer
+		cmd.Stdout = &buf
+		cmd.Run()
+		out := buf.String()
+		lines := strings.SplitN(out, "\n", 2)
+		if strings.TrimSpace(lines[0]) != "sat" {
+			if strings.TrimSpace(lines[0]) == "unsat" {
+				return nil, false
+			}
+			continue
+		}
+		vals := map[string]string{}
+		if len(lines) > 1 && len(terms) > 0 {
+			body := strings.TrimSpace(lines[1])
+			if len(body) >= 2 {
+				for _, pair := range splitTop(body[1 : len(body)-1]) {
+					kv := splitTop(pair[1 : len(pair)-1])
+					if len(kv) == 2 {
+						vals[kv[0]] = kv[1]
+					}
+				}
+			}
+		}
+		return vals, true
+	}
+	return nil, false
+}
+
+func modelInt(s string) (int64, bool) {
+	t := Term{strings.Join(strings.Fields(s), " "), SInt}
+	n, ok := t.IsLit()
+	if !ok || !n.IsInt64() {
+		return 0, false
+	}
+	return n.Int64(), true
+}
+
+// litBuilder builds Go literals for the entry values of parameters from the model.
+type litBuilder struct {
+	e      *Engine
+	script string
+	fixed  []string // assertions pinning already-read scalars
+	pkg    *types.Package
+	notes  []string
+	fail   string
+}
+
+func (lb *litBuilder) values(terms []Term) ([]string, bool) {
+	if len(terms) == 0 {
+		return nil, true
+	}
+	var ts []string
+	for _, t := range terms {
+		ts = append(ts, t.S)
+	}
+	// symbols that the VC did not need (and hence did not declare) are unconstrained: declare them
+	toks := map[string]bool{}
+	for _, t := range ts {
+		tokensOf(t, toks)
+	}
+	var extraDecls []string
+	for tk := range toks {
+		if d, ok := lb.e.sym.decls[tk]; ok && len(d.Args) == 0 {
+			if !strings.Contains(lb.script, "(declare-const "+tk+" ") {
+				extraDecls = append(extraDecls, fmt.Sprintf("(declare-const %s %s)", tk, d.Sort))
+			}
+		}
+	}
+	script := lb.script
+	if len(extraDecls) > 0 {
+		i := strings.LastIndex(script, "(assert ")
+		script = script[:i] + strings.Join(extraDecls, "\n") + "\n" + script[i:]
+		lb.script = script
+	}
+	vals, ok := modelQuery(lb.script, lb.fixed, ts)
+	if !ok {
+		return nil, false
+	}
+	out := make([]string, len(terms))
+	for i, t := range terms {
+		v, have := vals[t.S]
+		if !have {
+			// solvers may normalise the printed term; fall back to positional lookup is impossible, so fail
+			return nil, false
+		}
+		out[i] = v
+		lb.fixed = append(lb.fixed, fmt.Sprintf("(= %s %s)", t.S, v))
+	}
+	return out, true
+}
+
+func (lb *litBuilder) typeStr(t types.Type) string {
+	return types.TypeString(t, func(p *types.Package) string {
+		if p == lb.pkg {
+			return ""
+		}
+		return p.Name()
+	})
+}
+
+const maxReplayLen = 4096
+
+// lit renders value v of type t (in the initial heap H0) as a Go expression.
+func (lb *litBuilder) lit(v Value, t types.Type, depth int) string {
+	if lb.fail != "" {
+		return "nil"
+	}
+	if depth > 4 {
+		lb.fail = "value nesting too deep for replay"
+		return "nil"
+	}
+	if _, isTP := t.(*types.TypeParam); isTP {
+		lb.fail = "type parameter typed input cannot be replayed"
+		return "nil"
+	}
+	if isNamed(t, "time", "Time") {
+		vals, ok := lb.values([]Term{v.(Term)})
+		if !ok {
+			lb.fail = "model value unavailable"
+			return "nil"
+		}
+		n, _ := modelInt(vals[0])
+		if n == 0 {
+			return "time.Time{}"
+		}
+		return fmt.Sprintf("time.Time{}.Add(time.Duration(%d))", n)
+	}
+	switch u := t.Underlying().(type) {
+	case *types.Basic:
+		if u.Info()&types.IsString != 0 {
+			s := v.(VStr)
+			vals, ok := lb.values([]Term{strLen(s)})
+			if !ok {
+				lb.fail = "model value unavailable"
+				return `""`
+			}
+			n, _ := modelInt(vals[0])
+			if n > maxReplayLen {
+				lb.fail = fmt.Sprintf("model needs a string of length %d", n)
+				return `""`
+			}
+			var terms []Term
+			for i := int64(0); i < n; i++ {
+				terms = append(terms, Select(strData(s), IntLit(i)))
+			}
+			bs, ok := lb.values(terms)
+			if !ok {
+				lb.fail = "model value unavailable"
+				return `""`
+			}
+			var sb strings.Builder
+			sb.WriteString("string([]byte{")
+			for _, b := range bs {
+				x, _ := modelInt(b)
+				sb.WriteString(fmt.Sprintf("%d,", uint8(x)))
+			}
+			sb.WriteString("})")
+			return lb.conv(t, sb.String())
+		}
+		vals, ok := lb.values([]Term{v.(Term)})
+		if !ok {
+			lb.fail = "model value unavailable"
+			return "0"
+		}
+		if u.Info()&types.IsBoolean != 0 {
+			return lb.conv(t, vals[0])
+		}
+		n, ok := Term{strings.Join(strings.Fields(vals[0]), " "), SInt}.IsLit()
+		if !ok {
+			lb.fail = "non-literal model value " + vals[0]
+			return "0"
+		}
+		if lo, hi, w, signed, ok := intRange(t); ok && (n.Cmp(lo) < 0 || n.Cmp(hi) > 0) {
+			// heap cells never read directly are unconstrained in the model: reduce to the type's range
+			n = new(bigInt).Mod(n, pow2(w))
+			if signed && n.Cmp(hi) > 0 {
+				n.Sub(n, pow2(w))
+			}
+		}
+		return lb.conv(t, n.String())
+	case *types.Slice:
+		s := v.(VSlice)
+		vals, ok := lb.values([]Term{s.Arr, s.Off, s.Len, s.Cap})
+		if !ok {
+			lb.fail = "model value unavailable"
+			return "nil"
+		}
+		arr, _ := modelInt(vals[0])
+		n, _ := modelInt(vals[2])
+		cp, _ := modelInt(vals[3])
+		if arr == 0 {
+			return "nil"
+		}
+		if n > maxReplayLen || cp > 4*maxReplayLen {
+			lb.fail = fmt.Sprintf("model needs a slice of length %d / capacity %d", n, cp)
+			return "nil"
+		}
+		var elems []string
+		for i := int64(0); i < n; i++ {
+			p := elemPtr(s, IntLit(i), u.Elem())
+			ev := lb.e.loadPtr(&State{heap: map[string]Term{}, ghost: map[string]Term{}}, p, map[string]Term{})
+			elems = append(elems, lb.lit(ev, u.Elem(), depth+1))
+		}
+		ts := lb.typeStr(t)
+		lit := fmt.Sprintf("%s{%s}", lb.sliceLitType(t), strings.Join(elems, ", "))
+		if cp > n {
+			// reproduce the capacity
+			lit = fmt.Sprintf("append(make(%s, 0, %d), %s...)", lb.sliceLitType(t), cp, lit)
+		}
+		if _, named := t.(*types.Named); named {
+			lit = ts + "(" + lit + ")"
+		}
+		return lit
+	case *types.Pointer:
+		p := v.(VPtr)
+		vals, ok := lb.values([]Term{p.Ref})
+		if !ok {
+			lb.fail = "model value unavailable"
+			return "nil"
+		}
+		ref, _ := modelInt(vals[0])
+		if ref == 0 {
+			return "nil"
+		}
+		pt := u.Elem()
+		if p.ArrLen >= 0 {
+			at := pt.Underlying().(*types.Array)
+			var elems []string
+			for i := int64(0); i < at.Len(); i++ {
+				ep := VPtr{Ref: p.Ref, Idx: Add(p.Idx, IntLit(i)), Root: p.Root, ArrLen: -1}
+				ev := lb.e.loadPtr(&State{heap: map[string]Term{}, ghost: map[string]Term{}}, ep, map[string]Term{})
+				elems = append(elems, lb.lit(ev, at.Elem(), depth+1))
+			}
+			return fmt.Sprintf("&%s{%s}", lb.typeStr(pt), strings.Join(elems, ", "))
+		}
+		pv := lb.e.loadPtr(&State{heap: map[string]Term{}, ghost: map[string]Term{}}, p, map[string]Term{})
+		inner := lb.lit(pv, pt, depth+1)
+		if _, isStruct := pt.Underlying().(*types.Struct); isStruct && strings.HasPrefix(inner, lb.typeStr(pt)+"{") {
+			return "&" + inner
+		}
+		return fmt.Sprintf("func() *%s { x := %s; return &x }()", lb.typeStr(pt), inner)
+	case *types.Struct:
+		if unitType(t) {
+			return lb.typeStr(t) + "{}"
+		}
+		s := v.(VStruct)
+		var fs []string
+		for i := 0; i < u.NumFields(); i++ {
+			f := u.Field(i)
+			if unitType(f.Type()) {
+				continue
+			}
+			switch f.Type().Underlying().(type) {
+			case *types.Chan, *types.Signature, *types.Interface, *types.Map:
+				lb.notes = append(lb.notes, "field "+f.Name()+" left zero (not replayable)")
+				continue
+			}
+			fs = append(fs, fmt.Sprintf("%s: %s", f.Name(), lb.lit(s.F[i], f.Type(), depth+1)))
+		}
+		return fmt.Sprintf("%s{%s}", lb.typeStr(t), strings.Join(fs, ", "))
+	case *types.Array:
+		a := v.(VArr)
+		var elems []string
+		for i := int64(0); i < a.N; i++ {
+			var ts []Term
+			for _, c := range a.Comps {
+				ts = append(ts, Select(c, IntLit(i)))
+			}
+			ev, _ := fromTerms(ts, a.Elem)
+			elems = append(elems, lb.lit(ev, a.Elem, depth+1))
+		}
+		return fmt.Sprintf("%s{%s}", lb.typeStr(t), strings.Join(elems, ", "))
+	case *types.Interface:
+		if isNamed(t, "context", "Context") {
+			return "context.Background()"
+		}
+		iv, _ := v.(VIface)
+		vals, ok := lb.values([]Term{iv.Tag})
+		if ok {
+			if n, _ := modelInt(vals[0]); n == 0 {
+				return "nil"
+			}
+		}
+		lb.fail = "interface typed input cannot be replayed"
+		return "nil"
+	}
+	lb.fail = "input of type " + t.String() + " cannot be replayed"
+	return "nil"
+}
+
+func (lb *litBuilder) sliceLitType(t types.Type) string {
+	return "[]" + lb.typeStr(t.Underlying().(*types.Slice).Elem())
+}
+
+func (lb *litBuilder) conv(t types.Type, lit string) string {
+	return lb.typeStr(t) + "(" + lit + ")"
+}
 
 // tryReplay attempts to replay the model of a refuted obligation on the real code.
-// It returns the path of the replay artefact (may be empty) and whether the failure reproduced.
 func tryReplay(e *Engine, r *FuncResult, ob *Obligation) (string, bool) {
-	return "", false
+	if ob.Status != "refuted" || ob.File == "" {
+		return "", false
+	}
+	fn, ok := e.funcs[r.Key]
+	if !ok || fn.Parent() != nil {
+		return "", false
+	}
+	art := &ReplayArtefact{Obligation: ob.Name, Function: r.Display}
+	path := filepath.Join(verifRoot, "replays", "tests", sanitize(ob.Name)+".json")
+	os.MkdirAll(filepath.Dir(path), 0o755)
+	save := func() {
+		data, _ := json.MarshalIndent(art, "", " ")
+		os.WriteFile(path, data, 0o644)
+	}
+	kind := kindOf(ob.Name)
+	isPanicKind := panicKinds[kind] || strings.HasPrefix(kind, "pre(")
+	if !isPanicKind {
+		art.Note = "obligation kind " + kind + " has no executable oracle yet; not replayed"
+		save()
+		return path, false
+	}
+	if fn.TypeParams().Len() > 0 || (fn.Signature.Recv() != nil && recvHasTypeParams(fn)) {
+		art.Note = "generic function: replay needs an instantiation; not replayed"
+		save()
+		return path, false
+	}
+	scriptBytes, err := os.ReadFile(ob.File)
+	if err != nil {
+		return "", false
+	}
+	// re-create the entry values: the VC names them in!<param><comp>!<n>; regenerate by running the
+	// same deterministic naming: parse the declared constants from the script.
+	script := string(scriptBytes)
+	params := entryValuesFromScript(e, fn, script)
+	if params == nil {
+		art.Note = "could not recover the entry values from the VC"
+		save()
+		return path, false
+	}
+	lb := &litBuilder{e: e, script: script, pkg: fn.Pkg.Pkg}
+	// prefer small inputs
+	var small []string
+	for i, p := range fn.Params {
+		switch v := params[i].(type) {
+		case VSlice:
+			small = append(small, fmt.Sprintf("(<= %s 64)", v.Len.S), fmt.Sprintf("(<= %s 64)", v.Cap.S))
+		case VStr:
+			small = append(small, fmt.Sprintf("(<= %s 64)", strLen(v).S))
+		}
+		_ = p
+	}
+	if _, ok := modelQuery(script, small, nil); ok {
+		lb.fixed = append(lb.fixed, small...)
+	}
+	var args []string
+	for i, p := range fn.Params {
+		args = append(args, lb.lit(params[i], p.Type(), 0))
+		if lb.fail != "" {
+			art.Note = "input not replayable: " + lb.fail
+			save()
+			return path, false
+		}
+	}
+	art.Inputs = args
+	// build the test
+	var sb strings.Builder
+	pkgName := fn.Pkg.Pkg.Name()
+	sb.WriteString("package " + pkgName + "\n\nimport (\n\t\"context\"\n\t\"fmt\"\n\t\"testing\"\n\t\"time\"\n)\n\n")
+	sb.WriteString("var _ = context.Background\nvar _ = time.Now\n\n")
+	sb.WriteString("func TestVerifReplay(t *testing.T) {\n")
+	sb.WriteString("\tdefer func() {\n\t\tif r := recover(); r != nil {\n\t\t\tfmt.Printf(\"REPLAY-PANIC: %v\\n\", r)\n\t\t\tt.Fatalf(\"panic: %v\", r)\n\t\t}\n\t}()\n")
+	call := ""
+	if fn.Signature.Recv() != nil {
+		sb.WriteString(fmt.Sprintf("\trecv := %s\n", args[0]))
+		for i, a := range args[1:] {
+			sb.WriteString(fmt.Sprintf("\ta%d := %s\n", i, a))
+		}
+		var names []string
+		for i := range args[1:] {
+			names = append(names, fmt.Sprintf("a%d", i))
+		}
+		if fn.Signature.Variadic() && len(names) > 0 {
+			names[len(names)-1] += "..."
+		}
+		call = fmt.Sprintf("recv.%s(%s)", fn.Name(), strings.Join(names, ", "))
+	} else {
+		var names []string
+		for i, a := range args {
+			sb.WriteString(fmt.Sprintf("\ta%d := %s\n", i, a))
+			names = append(names, fmt.Sprintf("a%d", i))
+		}
+		if fn.Signature.Variadic() && len(names) > 0 {
+			names[len(names)-1] += "..."
+		}
+		call = fmt.Sprintf("%s(%s)", fn.Name(), strings.Join(names, ", "))
+	}
+	sb.WriteString("\t" + call + "\n")
+	sb.WriteString("\tfmt.Println(\"REPLAY-RETURNED\")\n}\n")
+	art.TestSource = sb.String()
+	rel, _ := filepath.Rel(modulePath, fn.Pkg.Pkg.Path())
+	art.PkgDir = filepath.Join(repoRoot, rel)
+	art.Expect = "run-time panic (" + kind + ")"
+	art.Observed, art.Confirmed = runReplayTest(art)
+	save()
+	return path, art.Confirmed
+}
+
+func recvHasTypeParams(fn *ssa.Function) bool {
+	t := fn.Signature.Recv().Type()
+	if p, ok := t.(*types.Pointer); ok {
+		t = p.Elem()
+	}
+	if n, ok := t.(*types.Named); ok {
+		return n.TypeParams().Len() > 0 || n.TypeArgs().Len() > 0
+	}
+	return false
+}
+
+// entryValuesFromScript rebuilds the symbolic entry values of the parameters: they are the
+// constants in!<name><comp>!<k> declared in the VC, numbered in creation order.
+func entryValuesFromScript(e *Engine, fn *ssa.Function, script string) []Value {
+	decl := map[string]string{} // "in!x.arr" -> full symbol
+	for _, line := range strings.Split(script, "\n") {
+		if !strings.HasPrefix(line, "(declare-const ") {
+			continue
+		}
+		f := splitTop(line[1 : len(line)-1])
+		if len(f) < 3 {
+			continue
+		}
+		sym := f[1]
+		bare := strings.Trim(sym, "|")
+		if !strings.HasPrefix(bare, "in!") {
+			continue
+		}
+		k := strings.LastIndex(bare, "!")
+		decl[bare[:k]] = sym
+	}
+	var out []Value
+	for _, p := range fn.Params {
+		var ts []Term
+		for _, c := range flatten(p.Type()) {
+			sym, ok := decl["in!"+p.Name()+c.Path]
+			if !ok {
+				// the component does not occur in the VC: any value will do
+				ts = append(ts, zeroOfSort(c.Sort))
+				continue
+			}
+			ts = append(ts, Term{sym, c.Sort})
+		}
+		v, _ := fromTerms(ts, p.Type())
+		out = append(out, v)
+	}
+	return out
+}
+
+func runReplayTest(art *ReplayArtefact) (string, bool) {
+	dir, err := os.MkdirTemp("", "govc-replay")
+	if err != nil {
+		return "cannot create temp dir", false
+	}
+	defer os.RemoveAll(dir)
+	testFile := filepath.Join(dir, "zz_verif_replay_test.go")
+	os.WriteFile(testFile, []byte(art.TestSource), 0o644)
+	ov := map[string]map[string]string{"Replace": {filepath.Join(art.PkgDir, "zz_verif_replay_test.go"): testFile}}
+	ovData, _ := json.Marshal(ov)
+	ovFile := filepath.Join(dir, "overlay.json")
+	os.WriteFile(ovFile, ovData, 0o644)
+	cmd := exec.Command("go", "test", "-overlay", ovFile, "-vet=off", "-count=1", "-timeout", "60s", "-run", "TestVerifReplay$", ".")
+	cmd.Dir = art.PkgDir
+	cmd.Env = append(os.Environ(), "GOFLAGS=-mod=mod", "GOPROXY=off", "GOSUMDB=off", "GOTOOLCHAIN=local")
+	var buf bytes.Buffer
+	cmd.Stdout = &buf
+	cmd.Stderr = &buf
+	done := make(chan error, 1)
+	go func() { done <- cmd.Run() }()
+	select {
+	case <-done:
+	case <-time.After(120 * time.Second):
+		if cmd.Process != nil {
+			cmd.Process.Kill()
+		}
+		return "replay timed out", false
+	}
+	out := buf.String()
+	switch {
+	case strings.Contains(out, "REPLAY-PANIC:"):
+		i := strings.Index(out, "REPLAY-PANIC:")
+		line := strings.SplitN(out[i:], "\n", 2)[0]
+		return line, true
+	case strings.Contains(out, "REPLAY-RETURNED"):
+		return "the real function returned normally on the model's input", false
+	}
+	return "replay did not run: " + truncate(out, 1500), false
+}
+
+// cmdReplay re-runs a stored replay artefact.
+func cmdReplay(args []string) int {
+	if len(args) < 1 {
+		fmt.Fprintln(os.Stderr, "usage: govc replay <path>")
+		return 2
+	}
+	var rep map[string]interface{}
+	if err := loadJSON(args[0], &rep); err != nil {
+		fmt.Fprintln(os.Stderr, err)
+		return 2
+	}
+	// a violation file may point to a test artefact
+	if d, ok := rep["detail"].(string); ok {
+		if i := strings.Index(d, "replay: "); i >= 0 {
+			p := strings.TrimSpace(strings.SplitN(d[i+len("replay: "):], "\n", 2)[0])
+			return cmdReplay([]string{p})
+		}
+		fmt.Println("no executable replay stored for this violation; obligation:", rep["obligation"])
+		fmt.Println(d)
+		return 0
+	}
+	if cmdStr, ok := rep["replay_cmd"].(string); ok && cmdStr != "" {
+		c := exec.Command("sh", "-c", cmdStr)
+		c.Stdout = os.Stdout
+		c.Stderr = os.Stderr
+		if err := c.Run(); err != nil {
+			return 1
+		}
+		return 0
+	}
+	var art ReplayArtefact
+	if err := loadJSON(args[0], &art); err != nil || art.TestSource == "" {
+		fmt.Println("no executable replay in", args[0], art.Note)
+		return 0
+	}
+	obs, confirmed := runReplayTest(&art)
+	fmt.Println(obs)
+	if confirmed {
+		fmt.Println("replay reproduces the failure on the real code")
+		return 1
+	}
+	return 0
 }
 
 func runBoundedOne(name, tier string, seed int) BoundedResult {
